@@ -493,11 +493,18 @@ func clRun(cfg *config, toks []string) string {
 				return math.Float64frombits(b)
 			}
 			lat, lon, brg, dist, tol := num("Start.Latitude"), num("Start.Longitude"), num("Start.Bearing"), num("Start.Distance"), num("Tolerance")
-			if math.Abs(lat) < 80 && math.Abs(lon) < 170 && dist > 0 && dist < 1000 && tol >= 0 && tol < 100 {
+			if math.Abs(lat) < 80 && math.Abs(lon) <= 180 && dist > 0 && dist < 1000 && tol >= 0 && tol < 100 {
 				for _, fr := range []float64{0.35, -0.7, 0.9, 1.3, -1.6} {
 					var pla, plo float64
 					geodesic.WGS84.Direct(lat, lon, brg+90, fr*dist, &pla, &plo, nil)
-					points = append(points, [2]float64{pla, plo}, [2]float64{pla, 2*lon - plo})
+					mlo := 2*lon - plo
+					for mlo > 180 {
+						mlo -= 360
+					}
+					for mlo < -180 {
+						mlo += 360
+					}
+					points = append(points, [2]float64{pla, plo}, [2]float64{pla, mlo})
 					for _, side := range []float64{0.5, 1.5} {
 						var qla, qlo float64
 						geodesic.WGS84.Direct(pla, plo, brg, side*tol+0.02, &qla, &qlo, nil)
@@ -581,7 +588,10 @@ func clRun(cfg *config, toks []string) string {
 		extra = fmt.Sprintf(" wrote=%s pipe=%s", wrote, pipe)
 	case "gopro.laptimes":
 		hits := strings.Count(errText, "start line passed")
-		want := -1
+		if os.Getenv("VERIF_DEBUG_CL") != "" {
+			fmt.Fprintf(os.Stderr, "DEBUG stderr:\n%s\n", errText)
+		}
+		want, wantHi := -1, -1
 		if okObs {
 			num := func(p string) float64 {
 				_, v, _ := clGet(obs, p)
@@ -592,17 +602,25 @@ func clRun(cfg *config, toks []string) string {
 			var lat1, lon1, lat2, lon2 float64
 			geodesic.WGS84.Direct(lat, lon, brg+90, dist, &lat1, &lon1, nil)
 			geodesic.WGS84.Direct(lat, lon, brg-90, dist, &lat2, &lon2, nil)
-			p := geo.NewProcessor(geo.Tolerance(tol))
-			want = 0
+			// readings within a guard band of the tolerance boundary (3% + 2 cm: the end points of the
+			// line are themselves computed, and the file stores 1e-7 degree integers) may go either way
+			pLo := geo.NewProcessor(geo.Tolerance(math.Max(0, tol*0.97-0.02)))
+			pHi := geo.NewProcessor(geo.Tolerance(tol*1.03 + 0.02))
+			want, wantHi = 0, 0
 			for _, pt := range points {
-				// the file stores 1e-7 degree integers
 				la, lo := math.Round(pt[0]*1e7)/1e7, math.Round(pt[1]*1e7)/1e7
-				if p.OnLine(la, lo, lat1, lon1, lat2, lon2) {
+				if tol > 0 && pLo.OnLine(la, lo, lat1, lon1, lat2, lon2) {
 					want++
+				}
+				if pHi.OnLine(la, lo, lat1, lon1, lat2, lon2) {
+					wantHi++
+				}
+				if os.Getenv("VERIF_DEBUG_CL") != "" {
+					fmt.Fprintf(os.Stderr, "DEBUG pt %.7f %.7f lo=%v hi=%v\n", la, lo, pLo.OnLine(la, lo, lat1, lon1, lat2, lon2), pHi.OnLine(la, lo, lat1, lon1, lat2, lon2))
 				}
 			}
 		}
-		extra = fmt.Sprintf(" hits=%d want=%d", hits, want)
+		extra = fmt.Sprintf(" hits=%d want=%d wanthi=%d", hits, want, wantHi)
 	}
 	return fmt.Sprintf("exit=%d used=%s msg=%s obs=%s%s", exit, used, msg, obs, extra)
 }
@@ -674,6 +692,10 @@ func clValue(r *rng, cmd string, o clOpt, src int) string {
 		case strings.HasSuffix(o.path, "latitude"):
 			return hexStr(strconv.FormatFloat(50.85+float64(r.intn(5))*0.0001, 'f', -1, 64))
 		case strings.HasSuffix(o.path, "longitude"):
+			if r.chance(1, 8) {
+				// a circuit on the 180th meridian (Fiji) is a circuit like any other
+				return hexStr(pick(r, []string{"180", "-180", "179.99996", "-179.99995"}))
+			}
 			return hexStr(strconv.FormatFloat(-0.75-float64(r.intn(5))*0.0001, 'f', -1, 64))
 		case strings.HasSuffix(o.path, "bearing"):
 			return hexStr(pick(r, []string{"0", "90", "45.5", "180", "271"}))
@@ -810,7 +832,14 @@ func genCL(cfg *config, r *rng, i int, s *sink) string {
 					for _, d := range []float64{3, -4, 8} {
 						var pla, plo float64
 						geodesic.WGS84.Direct(laf, lof, brg+90, d, &pla, &plo, nil)
-						pts = append(pts, fmt.Sprintf("%.7f,%.7f", pla, plo), fmt.Sprintf("%.7f,%.7f", pla, 2*lof-plo))
+						mlo := 2*lof - plo
+						for mlo > 180 {
+							mlo -= 360
+						}
+						for mlo < -180 {
+							mlo += 360
+						}
+						pts = append(pts, fmt.Sprintf("%.7f,%.7f", pla, plo), fmt.Sprintf("%.7f,%.7f", pla, mlo))
 					}
 				}
 			}
